@@ -12,9 +12,29 @@ RULE = ("random histories of up to 30 ops on the real RollingFileAppender: trigg
         "model comparison applies), burst of 2-4 threads x 1-4 tagged records. After EVERY op the whole directory "
         "(names -> gunzipped bytes) and every policy consultation is compared with the model; independently the files "
         "read oldest archive..active must be a suffix of the acknowledged records cut at a record boundary with file "
-        "boundaries on record boundaries, nothing missing while rotations <= count. non-trivial = at least 2 records "
+        "boundaries on record boundaries, nothing missing while rotations <= count. Window patterns carry the index in the file name, "
+        "in a directory component and the file name, or in a directory component only. "
+        "HOT RESTART family (150 quick / 2500 thorough): a second appender is built on the same path while the old "
+        "instance keeps acknowledging records (ops: hot restart, append through the old instance, drop old), with a "
+        "scripted trigger that never fires while two instances are alive; the model sees one O_APPEND stream; the "
+        "stale len of the overlapping instances is not compared. "
+        "BACKGROUND ROTATION family (250 quick / 3000 thorough) through a second harness build with the crate's "
+        "`background_rotation` feature: window rollers with count >= 1, triggers firing at almost every append, "
+        "bursts (also of one thread = back-to-back appends) so that several roll-overs fall into one wall-clock "
+        "second while the previous rotation (1/6 of the cases: gzip of a 12-40 KB file) is still running; after "
+        "every op a consistent 'pending' snapshot is taken at once (every retained record must be in some archive, "
+        "temp or active file), then the driver waits until no temp file is left and compares the directory with "
+        "the synchronous model and the suffix oracle. non-trivial = at least 2 records "
         "and a trigger able to fire; distinct = distinct case line")
-ASSUMPTIONS = list(rc.COMMON_ASSUMPTIONS)
+ASSUMPTIONS = [a for a in rc.COMMON_ASSUMPTIONS if not a.startswith("synchronous rotation")] + [
+    "background_rotation: TRACE VALIDATION AT QUIESCENT POINTS only - the theorems are about the synchronous roller; "
+    "for the feature build the directory after each op, once all rotation threads have finished, must equal the "
+    "synchronous model's; the interleavings of the background thread with later appends are sampled by real "
+    "executions, not proved (no queue model in Coq)",
+    "hot restart: two live instances on one path are covered only while no rotation happens during the overlap "
+    "(a rotation under a second open handle sends that instance's records to the archived file - outside the "
+    "property, which speaks of restarts)",
+]
 EXHAUSTIVE = {"quick": False, "thorough": False}
 
 
